@@ -1,7 +1,7 @@
 (* C17 — table obligations: facts about ruleset/regexp.go as extracted into
    Tables.v on this run, each discharged by closed computation.  When the
    source changes shape exactly the lemma naming that shape stops checking. *)
-From G17 Require Import Model.
+From G17 Require Import Model WiringExpected.
 
 (* the rules of a side are evaluated one by one (not joined into one expression) *)
 Lemma ob_rules_evaluated_one_by_one : the_shape = PerRule.
@@ -11,4 +11,10 @@ Lemma ob_inverse_toggles : inverse_toggles = true.
 Proof. vm_compute. reflexivity. Qed.
 (* list entries are marked as exclusions by a leading '-' *)
 Lemma ob_exclude_prefix : exclude_prefix = [45].
+Proof. vm_compute. reflexivity. Qed.
+
+(* the call sites that use the lists (what is passed to Match; how run.go builds the matchers; the flags)
+   are the ones that were read: Match receives req.URL.Hostname() at all three sites and every matcher is
+   NewRegexpMatcherFromList of exactly the list the flag parser produced *)
+Lemma ob_wiring : wiring = wiring_expected.
 Proof. vm_compute. reflexivity. Qed.
